@@ -255,6 +255,31 @@ impl Sys {
                 cm.ca_child_update(&h(parent), ChildHandle::from_str(child).unwrap(), req, actor, rt)?;
                 Ok("ok".into())
             }
+            // one API request carrying several fields: id=cur (the child's current identity
+            // certificate) res=<atoms> suspend=true|false map=<rcn>:<name>
+            ["childupd", parent, child, fields @ ..] => {
+                let mut req = UpdateChildRequest { id_cert: None, resources: None, suspend: None, resource_class_name_mapping: None };
+                for f in fields {
+                    match f.split_once('=') {
+                        Some(("id", _)) => {
+                            let c = cm.get_ca(&h(child))?;
+                            req.id_cert = Some(c.child_request().validate().map_err(Error::rfc8183)?);
+                        }
+                        Some(("res", atoms)) => req.resources = Some(atoms_to_resources(&parse_atoms(atoms))),
+                        Some(("suspend", v)) => req.suspend = Some(v == "true"),
+                        Some(("map", v)) => {
+                            let (rcn, name) = v.split_once(':').expect("map=rcn:name");
+                            req.resource_class_name_mapping = Some(api::admin::ResourceClassNameMapping {
+                                name_in_parent: ResourceClassName::from(rcn),
+                                name_for_child: ResourceClassName::from(name),
+                            });
+                        }
+                        _ => panic!("childupd field {f}"),
+                    }
+                }
+                cm.ca_child_update(&h(parent), ChildHandle::from_str(child).unwrap(), req, actor, rt)?;
+                Ok("ok".into())
+            }
             ["childrm", parent, child] => {
                 cm.ca_child_remove(&h(parent), ChildHandle::from_str(child).unwrap(), actor, rt)?;
                 Ok("ok".into())
